@@ -34,7 +34,7 @@ def configs():
             for rx in range(4):
                 layouts = ["two_proc"] + (["one_proc"] if tx == 0 and rx == 0 else [])
                 for layout in layouts:
-                    cons = ["sync", "sync_uc", "receive", "async_with", "async_with_ret"] if api == "flag" else ["sync", "sync_uc", "mb_receive", "mb_exec_after"]
+                    cons = ["sync", "sync_uc", "receive", "async_with", "async_with_ret", "burst", "burst_with"] if api == "flag" else ["sync", "sync_uc", "mb_receive", "mb_exec_after", "mb_burst"]
                     if layout == "one_proc":
                         cons = ["sync"]
                     for c in cons:
@@ -73,6 +73,10 @@ def render_src(cfg):
         f"    got_data = Port.output(Unsigned[{W}], default=0)",
         "    v_set = Port.output(Bit)",
         "    v_clear = Port.output(Bit)",
+    ] + ([
+        "    got2 = Port.output(Bit, default=False)",
+        f"    got2_data = Port.output(Unsigned[{W}], default=0)",
+    ] if is_burst(cfg) else []) + [
         "",
         "    def architecture(self):",
         "        clk = std.Clock(self.clk)",
@@ -149,11 +153,26 @@ def render_src(cfg):
             # (the event counts as consumed where receive() returns, i.e. inside the executor; exec() hands the value back later)
             L += ["        async def fetch():", "            d = await mb.receive()", "            self.got ^= True", "            self.got_data <<= d", "            return d", f"        fetcher = std.Executor.make_after(fetch, result=Variable[Unsigned[{W}]]())"]
             L += ["        @cctx", "        async def consumer():", "            await self.c_take", "            await fetcher.ready()", "            await fetcher.exec()"]
+        elif c == "burst":
+            # two hand-overs in one round with nothing between them: the second one must wait for a NEW event (the clear of the
+            # first one is not visible yet in the clock in which it is issued)
+            L += ["        @cctx", "        async def consumer():", "            await self.c_take", "            await flag.receive()", "            self.got ^= True", f"            self.got_data <<= {rd}",
+                  "            await flag.receive()", "            self.got2 ^= True", f"            self.got2_data <<= {rd}"]
+        elif c == "burst_with":
+            L += ["        @cctx", "        async def consumer():", "            await self.c_take", "            await flag.receive()", "            self.got ^= True", f"            self.got_data <<= {rd}",
+                  "            async with flag:", "                self.got2 ^= True", f"                self.got2_data <<= {rd}"]
+        elif c == "mb_burst":
+            L += ["        @cctx", "        async def consumer():", "            await self.c_take", "            d = await mb.receive()", "            self.got ^= True", "            self.got_data <<= d",
+                  "            e = await mb.receive()", "            self.got2 ^= True", "            self.got2_data <<= e"]
         elif c == "mb_receive":
             L += ["        @cctx", "        async def consumer():", "            await self.c_take", "            d = await mb.receive()", "            self.got ^= True", "            self.got_data <<= d"]
         if cfg.get("cfirst"):
             L += PL  # the consumer context is declared (and converted) before the producer context
     return "\n".join(L) + "\n"
+
+
+def is_burst(cfg):
+    return cfg["consumer"] in ("burst", "burst_with", "mb_burst")
 
 
 def bound(cfg):
@@ -195,17 +214,20 @@ class History:
             else:
                 self.ineffective += 1
                 self.events.append((k, "set-while-set"))
-        if c_step and o["got"] == 1:
+        for g, gd in (("got", "got_data"), ("got2", "got2_data")):
+            # (got2: the second hand-over of a burst consumer; two observations in one clock are two consumed events)
+            if not (c_step and o.get(g) == 1):
+                continue
             if not self.out:
-                return {"rule": "consumer-observed-event-without-outstanding-set", "clock": k, "data": o["got_data"], "events": self.events[-6:]}
+                return {"rule": "consumer-observed-event-without-outstanding-set", "clock": k, "observation": g, "data": o[gd], "events": self.events[-6:]}
             d, ks = self.out.pop(0)
             if ks >= k:
                 return {"rule": "consumed-not-after-set", "clock": k, "set_clock": ks}
-            if d != o["got_data"]:
-                return {"rule": "payload-modified", "clock": k, "sent": d, "received": o["got_data"], "events": self.events[-6:]}
+            if d != o[gd]:
+                return {"rule": "payload-modified", "clock": k, "sent": d, "received": o[gd], "events": self.events[-6:]}
             self.got += 1
             self.max_latency = max(self.max_latency, k - ks)
-            self.events.append((k, "got", d))
+            self.events.append((k, g, d))
             self.last_progress = k
         if (o["v_set"] == 1) == (o["v_clear"] == 1):
             return {"rule": "is_set-and-is_clear-not-complementary", "clock": k, "v_set": o["v_set"], "v_clear": o["v_clear"]}
@@ -290,7 +312,7 @@ def simulate(cfg, design, sched, order_seed, order_mode="uniform"):
         if stall_c:
             fired["stall_c"] += 1
         d.clock(inp)
-        o = {x: d.get(x) for x in ("att", "att_clear", "att_data", "got", "got_data", "v_set", "v_clear")}
+        o = {x: d.get(x) for x in ("att", "att_clear", "att_data", "got", "got_data", "v_set", "v_clear") + (("got2", "got2_data") if is_burst(cfg) else ())}
         pr = d.problems()
         if pr:
             return pr[0], dict(pr[1], clock=k), H, fired, d
